@@ -64,6 +64,9 @@ func main() {
 		if s := os.Getenv("VERIF_PAR"); s != "" {
 			o.Par, _ = strconv.Atoi(s)
 		}
+		if r := os.Getenv("VERIF_ROOT"); r != "" {
+			fw.VerifRoot = r
+		}
 		o.Exe, _ = os.Executable()
 		os.Exit(fw.Drive(o))
 	case "list":
